@@ -99,6 +99,7 @@ instance : Inhabited Stmt := ⟨.ret default⟩
 
 structure Block where
   stmts : List Stmt
+  npreds : Nat := 0          -- number of predecessors of the block (value propagation compares it with the arity of a phi)
   deriving Inhabited
 
 structure Cfg where
